@@ -149,7 +149,16 @@ class Exec:
             return 'break'
         if k in ('For', 'While', 'Do', 'StaticAssert'):
             if not any((c.get('name') or '').startswith('emit') or c.get('name') == 'memcpy' for c in astq.calls(s)):
-                return      # bookkeeping loops (marking every register as modified) emit nothing
+                # bookkeeping loops (marking every register as modified) emit nothing; the value they store into the last-writer table is recorded
+                if k != 'StaticAssert':
+                    for x in astq.walk(s):
+                        if x['k'] == 'Assign' and 'reg_changed_offset' in show(x['l']):
+                            try:
+                                v = ev.ev(x['r'])
+                            except AnalysisBroken:
+                                v = None
+                            self.mark_all = getattr(self, 'mark_all', []) + [(v.value() if v is not None else None, loc(x, f))]
+                return
             raise AnalysisBroken('A64: a loop that emits code at %s' % loc(s, f))
         if k == 'Switch':
             cn = strip_all(s['c'])
@@ -220,6 +229,15 @@ class Exec:
                         fin = getattr(sub, 'final_env', {}).get(prm['id'])
                         if pa['k'] == 'Ref' and pa.get('id') is not None and fin is not None:
                             ev.env[pa['id']] = fin
+                return
+            if top.get('fn') and top['fn'].startswith(self.cls + '::') and self.F.has_func(top['fn']) and not any((c.get('name') or '').startswith('emit') or c.get('name') == 'memcpy' for c in astq.calls(self.F.func(top['fn'])['body'])):
+                # a helper of the class that emits nothing (bookkeeping): executed for its effect on the last-writer table
+                g = self.F.func(top['fn'])
+                args = [ev.ev(a) if type_info(prm['ty']) is not None else None for prm, a in zip(g['params'], top['a'])]
+                sub = Exec(self.F, self.cls, self.regs, self.literals, self.nlit)
+                sub.overrides = getattr(self, 'overrides', None)
+                sub.run(g, args, depth + 1)
+                self.mark_all = getattr(self, 'mark_all', []) + getattr(sub, 'mark_all', [])
                 return
             raise AnalysisBroken('A64-IMMHELP: unexpected call %s at %s' % (show(top)[:60], loc(top, f)))
         if top['k'] == 'Assign':
